@@ -77,7 +77,8 @@ SEEDED = {
     "T13-A": ["C05", "C13"], "T13-B": ["C05", "C13"], "T14-A": ["C14"], "T14-B": ["C14"], "T15-A": ["C15", "C08"], "T15-B": ["C15", "C08"], "T16-A": ["C16"], "T16-B": ["C16"],
     "T17-A": ["C08", "C17"], "T17-B": ["C08", "C17"],
     "S16-A": ["C16"], "S16-B": ["C16"], "S08-A": ["C08"], "S08-B": ["C07", "C08"], "S14-A": ["C14", "C15"], "S14-B": ["C14", "C04"], "S13-A": ["C13", "C03"], "S13-B": ["C05", "C13"],
-    "S01-A": ["C01"], "S01-B": ["C05", "C01"],
+    "S01-A": ["C01"], "S01-B": ["C05", "C01"], "S03-A": ["C03"], "S03-B": ["C05", "C03"], "S12-A": ["C12", "C11"], "S12-B": ["C12", "C11", "C01"], "S04-A": ["C04"], "S04-B": ["C04"],
+    "S06-A": ["C06", "C03"], "S06-B": ["C06", "C07"], "S05-A": ["C05", "C03"], "S05-B": ["C05"], "S05-C": ["C05"],
     "C14-A": ["C14"], "C14-B": ["C14"], "C15-A": ["C15"], "C15-B": ["C15"], "C16-A": ["C16"], "C16-B": ["C16"],
 }
 
